@@ -50,7 +50,8 @@ class Val:
 
 
 def leaf(values, scale, dim, relerr=0.0):
-    v = np.asarray(values, dtype=float)
+    v = np.asarray(values)
+    v = v.astype(complex if v.dtype.kind == "c" else float)
     with np.errstate(all="ignore"):
         si = v * float(scale)
     return Val(si, dim, np.abs(si) * relerr)
